@@ -550,6 +550,37 @@ pub const LADDER: [u64; 9] = [1_000, 100_000, 1_000_000, 10_000_000, 100_000_000
 /// C17 ladder unit: unit index = type index (0..13) or 13 for the index file.
 pub fn ladder_unit(unit: u64, ctx: &mut Ctx, ctl: &mut UnitCtl) {
     let mut inputs: Vec<(String, Vec<u8>, Vec<u8>)> = Vec::new();
+    if unit == 14 {
+        // valid, fully backed files with unusual but legal structure: many small parts, many
+        // points, many records (memory must stay proportional to the input for these too)
+        let specs: Vec<(String, Vec<ShapeSpec>)> = vec![
+            ("valid polyline of 3000 two-point parts".into(), vec![grid_spec(3, 3000, 2, 1)]),
+            ("valid multipatch of 2049 three-point patches".into(), vec![grid_spec(31, 2049, 3, 1)]),
+            ("valid polygonZ of 1500 rings".into(), vec![grid_spec(15, 1500, 3, 1)]),
+            ("valid multipointM of 8193 points".into(), vec![grid_spec(28, 1, 8193, 1)]),
+            ("valid file of 5000 point records".into(), (0..5000).map(|k| grid_spec(1, 1, 1, k)).collect()),
+            ("valid polylineM of 1025 parts of 1..3 points and one of 3000".into(), vec![grid_spec(23, 1025, 2, 1), grid_spec(23, 1, 3000, 5)]),
+        ];
+        for (note, shapes) in specs {
+            let w = WProg { calls: (0..shapes.len()).map(WCall::W).collect(), shapes, others: vec![], ending: Ending::Drop, with_shx: true, stack: StackCfg::Direct };
+            for rbuf in [0u32, 8192] {
+                let scn = CorScn { base: Base::Written(w.clone()), muts: vec![], rbuf };
+                if !ctl.before_case(|| Scenario::Corrupt(scn.clone())) {
+                    continue;
+                }
+                let Some(b) = produce(&scn.base) else {
+                    ctx.fail("HARNESS", "invalid-scenario", "base", format!("cannot produce {}", note));
+                    continue;
+                };
+                ctx.stats.evaluations += 1;
+                let outcome = drive(ctx, &b.shp, &b.shx, &b.dbf, b.ty, b.n, rbuf, "unmodified");
+                ctx.stats.fault("none-valid-large", 1);
+                ctx.stats.distinct.insert(crate::prng::fnv_str(&format!("{}|{}", note, outcome)));
+                ctl.after_case(ctx, || Scenario::Corrupt(scn.clone()));
+            }
+        }
+        return;
+    }
     if unit < 13 {
         let ty = TYPES[unit as usize];
         for n in LADDER {
